@@ -337,6 +337,8 @@ class Handler:
                         if inner is not None:
                             extra = "Err:" + str(inner.get("variant"))
             ev("client", m, extra=extra)
+        elif n0 in ("core::mem::take", "core::mem::replace", "std::mem::take", "std::mem::replace") and args and args[0]["k"] != "const" and "PolicyStateKind" in args[0]["p"]["ty"]:
+            ev("take_state")
         elif n0.endswith("Semaphore::acquire_owned"):
             ev("acquire")
         elif n0.endswith("Option::<T>::take") and args and "OwnedSemaphorePermit" in (args[0]["p"]["ty"] if args[0]["k"] != "const" else ""):
@@ -415,6 +417,31 @@ class Handler:
         k, b = self.user
         r = b.reachable_from(start, frozenset(avoid))
         return bool(r & self.returns())
+
+    def for_state(self, variant):
+        """The handler specialised for one state: every switch on the state is replaced by a jump to the target
+        this state takes (block numbers, and therefore events, are unchanged).  Makes arm-local questions exact
+        when the handler tests the state more than once (`matches!(state, A | B)` first, `match take(state)` later)."""
+        import copy
+        from mir import Body
+        k, b = self.user
+        if len(self.switches) < 2:
+            return self
+        nj = dict(b.j)
+        blocks = list(b.j["blocks"])
+        for (bi, tm, other, via, p) in self.switches:
+            tgt = tm.get(variant, other)
+            if tgt is None:
+                continue
+            nb = dict(blocks[bi])
+            nb["t"] = {"k": "goto", "t": tgt, "sp": blocks[bi]["t"].get("sp", ""), "state_of": variant}
+            blocks[bi] = nb
+        nj["blocks"] = blocks
+        hv = copy.copy(self)
+        hv.user = (k, Body(nj, b.krate))
+        hv.bodies = dict(self.bodies)
+        hv.bodies[k] = hv.user[1]
+        return hv
 
     def arm(self, variant, sw=None):
         """Entry block of the arm handling `variant` (explicit or fallback), and whether explicit."""
